@@ -395,10 +395,13 @@ fn one(_env: &Env, k: u64, case: u64, d: &mut Delta, rng: &mut rand::rngs::Small
     for e in &events {
         if e.payload.len() >= 4 && e.payload[..4] == MARK {
             // only the "TTL" and pure bit-flip classes can legitimately decode; find the injected frame it came from
-            let src = inj.iter().find(|i| i.bytes.len() >= 32 && i.bytes.ends_with(&e.payload));
-            let legit = src.map(|i| i.what.contains("TTL") || i.what.contains("bit flips")).unwrap_or(false);
+            // (payloads may coincide, e.g. the bare 4-byte marker: the delivery is explained as soon as ONE
+            // injected frame with that payload is of a class that can decode)
+            let cands: Vec<&Inj> = inj.iter().filter(|i| i.bytes.len() >= 32 && i.bytes.ends_with(&e.payload)).collect();
+            let legit = cands.iter().any(|i| i.what.contains("TTL") || i.what.contains("bit flips"));
+            let src = cands.first().copied();
             if !legit {
-                d.violation("malformed-frame-reached-application", format!("an application on machine {} received the payload of an injected frame ({})", e.machine, src.map(|i| i.what.clone()).unwrap_or("unidentified".into())), witness(json!({})));
+                d.violation("malformed-frame-reached-application", format!("an application on machine {} received the payload of an injected frame ({})", e.machine, src.map(|i| i.what.clone()).unwrap_or("unidentified".into())), witness(json!({"delivered_payload": crate::hex(&e.payload), "delivered_to_machine": e.machine})));
                 return;
             }
         }
